@@ -70,8 +70,66 @@ def _int_in_float(signed: bool, bits: int, t: Tuple[int, int, int]) -> bool:
     return all(_float_has(t, abs(v), 0) for v in cands)
 
 
+# Low-bit float formats (ONNX operator spec, "Float stored in 8 bits" / "4 bit types"):
+#   name: (sign bits, exponent bits, mantissa bits, exponent bias, has_inf, nan_patterns, has_negative_zero, has_zero)
+# nan_patterns: "ieee" (all-ones exponent, mantissa != 0), "fn" (all-ones exponent and all-ones mantissa),
+#               "fnuz" (only the negative-zero pattern), "e8m0" (0xFF), None
+LOWBIT = {
+    "FLOAT8E4M3FN": (1, 4, 3, 7, False, "fn", True, True),
+    "FLOAT8E4M3FNUZ": (1, 4, 3, 8, False, "fnuz", False, True),
+    "FLOAT8E5M2": (1, 5, 2, 15, True, "ieee", True, True),
+    "FLOAT8E5M2FNUZ": (1, 5, 2, 16, False, "fnuz", False, True),
+    "FLOAT4E2M1": (1, 2, 1, 1, False, None, True, True),
+    "FLOAT8E8M0": (0, 8, 0, 127, False, "e8m0", False, False),
+}
+_LOWBIT_CACHE: Dict[str, set] = {}
+
+
+def lowbit_values(name: str) -> set:
+    """All finite values of a low-bit float format, as exact Fractions (enumerated from the bit layout)."""
+    if name in _LOWBIT_CACHE:
+        return _LOWBIT_CACHE[name]
+    from fractions import Fraction
+    sb, eb, mb, bias, has_inf, nan, _nz, _z = LOWBIT[name]
+    vals = set()
+    emax_code = (1 << eb) - 1
+    for sign in range(1 << sb):
+        for e in range(1 << eb):
+            for m in range(1 << mb):
+                if name == "FLOAT8E8M0":
+                    if e == 0xFF:
+                        continue
+                    vals.add(Fraction(2) ** (e - bias))
+                    continue
+                if nan == "ieee" and e == emax_code:
+                    continue  # inf / nan
+                if nan == "fn" and e == emax_code and m == (1 << mb) - 1:
+                    continue
+                if nan == "fnuz" and sign == 1 and e == 0 and m == 0:
+                    continue
+                if e == 0:
+                    v = Fraction(m, 1 << mb) * Fraction(2) ** (1 - bias)
+                else:
+                    v = (1 + Fraction(m, 1 << mb)) * Fraction(2) ** (e - bias)
+                vals.add(-v if sign else v)
+    _LOWBIT_CACHE[name] = vals
+    return vals
+
+
+def _frac_in_float(fmt: Tuple[int, int, int], v) -> bool:
+    v = abs(v)
+    if v == 0:
+        return True
+    num, den = v.numerator, v.denominator
+    if den & (den - 1):
+        return False
+    return _float_has(fmt, num, -(den.bit_length() - 1))
+
+
 def reference_preserving(s: DT, u: DT) -> Optional[bool]:
     """Does T -> U -> T preserve every value of T?  None = outside the reference (unknown)."""
+    from fractions import Fraction
+
     def fmt(d: DT) -> Optional[Tuple[int, int, int]]:
         if d.name in IEEE:
             return IEEE[d.name]
@@ -80,9 +138,32 @@ def reference_preserving(s: DT, u: DT) -> Optional[bool]:
         return None
     if s == u:
         return True
-    known = lambda d: d.integer or d.name in IEEE or d.name in COMPLEX or d.name == "BOOL"
+    known = lambda d: d.integer or d.name in IEEE or d.name in COMPLEX or d.name == "BOOL" or d.name in LOWBIT
     if not known(s) or not known(u):
         return None
+    if u.name in LOWBIT:
+        U = lowbit_values(u.name)
+        _sb, _eb, _mb, _bias, u_inf, u_nan, u_negzero, u_zero = LOWBIT[u.name]
+        if s.name == "BOOL":
+            return Fraction(0) in U and Fraction(1) in U
+        if s.integer:
+            lo, hi = _int_range(s.signed, s.bits)  # type: ignore[arg-type]
+            if hi - lo <= 4096:
+                return all(Fraction(v) in U for v in range(lo, hi + 1))
+            return all(Fraction(v) in U for v in (lo, hi, 0, 1, hi - 1))
+        if s.name in LOWBIT:
+            S = lowbit_values(s.name)
+            _1, _2, _3, _4, s_inf, s_nan, s_negzero, _z = LOWBIT[s.name]
+            return S <= U and (not s_inf or u_inf) and (not s_nan or bool(u_nan)) and (not s_negzero or u_negzero)
+        # standard float / complex sources: far more values than any 8-bit format
+        return False
+    if s.name in LOWBIT:
+        S = lowbit_values(s.name)
+        _1, _2, _3, _4, s_inf, s_nan, s_negzero, _z = LOWBIT[s.name]
+        if u.name == "BOOL" or u.integer:
+            return False  # fractions / NaN / negative zero have no integer image (every low-bit format has one of them)
+        f = fmt(u)
+        return f is not None and all(_frac_in_float(f, v) for v in S)  # standard formats have inf, nan and -0
     if s.name == "BOOL":
         return u.name != "BOOL"  # 0/1 exist in every integer (>=2 bits signed, >=1 unsigned) and standard float type
     if u.name == "BOOL":
@@ -113,7 +194,7 @@ def run(res: Results, idx: Index, tier: str) -> None:
     res.rule("R-C17d", "Cast->Cast fold mutations are dominated by next_target == src_dtype and by decision/range-proof on (src dtype, first target); identity removal only when dtypes are equal", floor=3)
     res.trusted += ["onnx_ir.DataType member facts (is_integer / is_signed / bitwidth) of the installed onnx_ir", "IEEE-754 / bfloat16 format parameters (frozen table in sa/rules/c17.py)"]
     res.assumptions += ["ONNX Cast is exact whenever the source value is representable in the target type (integers wrap/saturate and floats round otherwise)",
-                        "NaN payload bits and float8/4-bit/string types are outside the reference: a True decision on them is UNRESOLVED"]
+                        "NaN payload bits and STRING/UNDEFINED are outside the reference: a True decision on them is UNRESOLVED; low-bit float formats (float8 / float4 / e8m0) are decided from value sets enumerated from their bit layouts, with negative zero, inf and NaN availability compared as flags"]
 
     dts = library_dtypes()
     # ---------------- R-C17a
@@ -242,6 +323,8 @@ def run(res: Results, idx: Index, tier: str) -> None:
                 and reference_preserving(dts["DOUBLE"], dts["COMPLEX64"]) is False
                 and reference_preserving(dts["INT16"], dts["FLOAT"]) is True and reference_preserving(dts["FLOAT16"], dts["FLOAT"]) is True
                 and reference_preserving(dts["BFLOAT16"], dts["FLOAT16"]) is False and reference_preserving(dts["FLOAT16"], dts["BFLOAT16"]) is False)
+    lb = _lowbit_control(dts)
+    res.control("R-C17b", "low-bit float reference: value sets enumerated from the bit layouts equal ml_dtypes' (when importable); BOOL->FLOAT8E8M0 (no zero) and FLOAT16->FLOAT8E5M2 rejected, FLOAT8E5M2->FLOAT16, FLOAT8E4M3FN->FLOAT16, UINT4->FLOAT8E4M3FN, BOOL->FLOAT4E2M1 accepted", lb[0], lb[1])
 
 
 # ops whose output elements are all elements of their first input (so integer bounds carry over)
@@ -249,6 +332,37 @@ VALUE_SET_PRESERVING = {
     "Identity", "Reshape", "Flatten", "Squeeze", "Unsqueeze", "Transpose", "Expand", "Tile", "Slice",
     "DepthToSpace", "SpaceToDepth", "ReverseSequence",
 }
+
+
+def _lowbit_control(dts) -> Tuple[bool, str]:
+    from fractions import Fraction
+    notes = []
+    ok = True
+    try:
+        import ml_dtypes
+        import numpy as np
+        names = {"FLOAT8E4M3FN": "float8_e4m3fn", "FLOAT8E4M3FNUZ": "float8_e4m3fnuz", "FLOAT8E5M2": "float8_e5m2", "FLOAT8E5M2FNUZ": "float8_e5m2fnuz", "FLOAT4E2M1": "float4_e2m1fn", "FLOAT8E8M0": "float8_e8m0fnu"}
+        for k, n in names.items():
+            t = getattr(ml_dtypes, n, None)
+            if t is None:
+                continue
+            nbits = 4 if k == "FLOAT4E2M1" else 8
+            arr = np.arange(1 << nbits, dtype=np.uint8).view(t).astype(np.float64)
+            theirs = {Fraction(float(x)) for x in arr if np.isfinite(x)}
+            mine = lowbit_values(k)
+            if theirs != mine:
+                ok = False
+                notes.append(f"{k}: {len(mine)} vs ml_dtypes {len(theirs)}")
+        notes.append("ml_dtypes cross-check done")
+    except Exception as e:  # the reference tables stand on their own; the cross-check is a bonus
+        notes.append(f"ml_dtypes cross-check skipped ({type(e).__name__})")
+    exp = [("BOOL", "FLOAT8E8M0", False), ("FLOAT16", "FLOAT8E5M2", False), ("FLOAT8E5M2", "FLOAT16", True), ("FLOAT8E4M3FN", "FLOAT16", True),
+           ("UINT4", "FLOAT8E4M3FN", True), ("BOOL", "FLOAT4E2M1", True), ("FLOAT8E4M3FN", "FLOAT8E4M3FNUZ", False), ("INT8", "FLOAT8E5M2", False), ("FLOAT8E5M2", "BFLOAT16", True), ("FLOAT8E4M3FN", "FLOAT8E5M2", False), ("FLOAT4E2M1", "FLOAT8E4M3FN", True)]
+    for a, b, want in exp:
+        if a in dts and b in dts and reference_preserving(dts[a], dts[b]) is not want:
+            ok = False
+            notes.append(f"{a}->{b} expected {want}")
+    return ok, "; ".join(notes)
 
 
 def _rule_e(res: Results, idx: Index, m, dts) -> None:
